@@ -7,7 +7,7 @@ mkdir -p .build evidence replay
 (cd /repo && CARGO_NET_OFFLINE=true cargo build --offline 2>&1 | tail -1)
 /verif/.build/cargo/debug/apverif extract /verif/lean/Aplang/Gen
 (cd lean && lake build apdriver 2>&1 | tail -2)
-(cd lean && lake build Aplang.Thm.C01 Aplang.Thm.C01b Aplang.Thm.C02 Aplang.Thm.C02b Aplang.Thm.C03 Aplang.Thm.C03b Aplang.Thm.C04 Aplang.Thm.C04b Aplang.Thm.C05 Aplang.Thm.C05b Aplang.Thm.C06 Aplang.Thm.C06b \
+(cd lean && lake build Aplang.Thm.C01 Aplang.Thm.C01b Aplang.Thm.C02 Aplang.Thm.C02b Aplang.Thm.C03 Aplang.Thm.C03b Aplang.Thm.C04 Aplang.Thm.C04b Aplang.Thm.C04c Aplang.Thm.C05 Aplang.Thm.C05b Aplang.Thm.C06 Aplang.Thm.C06b \
    Aplang.Thm.C07 Aplang.Thm.C07b Aplang.Thm.C08 Aplang.Thm.C08b Aplang.Thm.C09 Aplang.Thm.C09b Aplang.Thm.C09c Aplang.Thm.C10 Aplang.Thm.C10b Aplang.Thm.C11 Aplang.Thm.C11b Aplang.Thm.C12 \
    Aplang.Thm.C13 Aplang.Thm.C14 Aplang.Thm.C15 Aplang.Thm.C15b Aplang.Thm.C16 Aplang.Thm.C17 Aplang.Thm.C18 Aplang.Thm.C19 Aplang.Thm.TablesKeywords Aplang.Thm.TablesEnders Aplang.Thm.TablesRegistry 2>&1 | grep -v "^info\|^ℹ\|^✔\|^⚠" | tail -5)
 echo "setup done"
